@@ -211,6 +211,23 @@ CLAIMED["C08"] = dict(
          "the condition lemma, not a closed proof over the scheduler loop.",
     technique="Coq proof over a translator-regenerated model (field, Coquelicot) + interval-certified differential on real rows and reported leak demands")
 
+CLAIMED["C02"] = dict(
+    text="Proof over a model of the residual rows of constraint.py and the parameter formulas of param.py (constants regenerated from "
+         "constants.py): a closed/isolated link's row is its flow; the open-pipe row vanishes iff h_start - h_end = phi(q) with phi odd and "
+         "strictly increasing (so flow direction follows the head difference) for k > 0, minor >= 0; the head-pump row above the "
+         "smoothing threshold vanishes iff the head gain is A - B q^C; 1-point and (after the fix) 2-point curve coefficients pass "
+         "through their defining points; the power-pump row is P = rho g q dh; active PRV/PSV/FCV hold their setting; TCV and open "
+         "valves obey +-r q^2 with the sign of q. Ties decided inside coqc by interval arithmetic: for every (type, status) shape the "
+         "REAL row (dumped expression with the parameter values the code computed from roughness, diameter, length, minor loss, curve "
+         "points, settings) equals the model row over flow sweeps of either sign and around zero; every link at sampled reported steps "
+         "of generated runs satisfies the row of its reported status within the solver tolerance; pumps and check-valve pipes never "
+         "report reverse flow beyond Qtol (incl. a directed low-resistance CV bypass family).",
+    ref="DESIGN.md section 5 C02",
+    note="Trusted: Coq kernel; stdlib real axioms; coq-interval; translator chains.py; row dumper. Oracle: scipy curve_fit for 3-point curves "
+         "(its A,B,C are inputs). Not modelled: HW_approx='piecewise'. Partial: 'no reverse flow' for pumps/CVs is an observation on "
+         "reported results (the controls that enforce it are C05's accepted-state argument), not a theorem.",
+    technique="Coq proof (real analysis of the head-flow laws) + interval-certified differential on real constraint rows and reported results")
+
 NOT_YET = {
 }
 
